@@ -6,7 +6,7 @@ R1  range: for inputs in the ranges the callers can deliver (call-site join; the
 R2  zero silences: with channel volume, expression or master volume fixed to 0 the model output `volume` is [0,0] in all models.
 R3  monotone: per volume model, `volume` is non-decreasing in velocity, channel volume, expression and master volume; the scaled
     level is non-increasing in `volume`; the brightness mappings are non-decreasing and the level non-increasing in brightness.
-R4  carrier mask: alg_do equals the YM2612 output-operator sets; modulators are written unchanged unless modulator scaling or a
+R4  carrier mask: alg_do (8 x 4 booleans, or one bit mask per algorithm read by `(T[alg] >> op) & 1` / `T[alg] & (1 << op)`) equals the YM2612 output-operator sets; modulators are written unchanged unless modulator scaling or a
     reduced brightness is in force.
 """
 import copy
